@@ -65,16 +65,25 @@ func tokenSpec(assumeOpenTr bool) *TSpec {
 				if isChanField(x.Chan, tDB, "writeMergedC") {
 					if bv, ok := constBool(x.X); ok && !bv {
 						return []Eff{{Res: "wlock", D: -1}}, true
+					} else if ok && bv {
+						return []Eff{{Res: "req", D: -1}}, true // a merged request is answered
 					}
 				}
 			case *ssa.UnOp:
 				if x.Op == token.ARROW && isChanField(x.X, tDB, "writeLockC") {
 					return []Eff{{Res: "wlock", D: -1}}, true
 				}
+				if x.Op == token.ARROW && isChanField(x.X, tDB, "writeMergedC") {
+					return []Eff{{Res: "wait", D: -1}}, true // the merge request got its reply
+				}
+				if x.Op == token.ARROW && isChanField(x.X, tDB, "writeAckC") {
+					return []Eff{{Res: "ack", D: -1}}, true // the merged writer collected the group's result
+				}
 			case *ssa.Store:
 				if isFieldAddr(x.Addr, tDB, "compWriteLocking") {
 					if bv, ok := constBool(x.Val); ok && bv {
-						return []Eff{{Res: "wlock", D: -1}}, true // transferred to the persistent-error handler
+						// transferred to the persistent-error handler, which must give it back on close
+						return []Eff{{Res: "wlock", D: -1}, {Res: "handler", D: 1, Set: true}}, true
 					}
 				}
 			}
@@ -95,20 +104,60 @@ func tokenSpec(assumeOpenTr bool) *TSpec {
 				if st.Dir == 2 /* RecvOnly */ && isChanField(st.Chan, tDB, "writeLockC") {
 					return []Eff{{Res: "wlock", D: -1}}
 				}
+				if st.Dir == 2 && isChanField(st.Chan, tDB, "writeMergeC") {
+					return []Eff{{Res: "req", D: +1}} // the leader received a merge request: it owes exactly one reply
+				}
+				if st.Dir == 1 && isChanField(st.Chan, tDB, "writeMergeC") {
+					return []Eff{{Res: "wait", D: +1}} // we sent a merge request: we must wait for the reply
+				}
 			}
 			if len(b.Instrs) > 0 {
 				if iff, ok := b.Instrs[len(b.Instrs)-1].(*ssa.If); ok {
 					// false edge of `<-db.writeMergedC`: the lock was handed to us
-					if u, ok := iff.Cond.(*ssa.UnOp); ok && u.Op == token.ARROW && isChanField(u.X, tDB, "writeMergedC") && succ == 1 {
-						return []Eff{{Res: "wlock", D: +1}}
+					if u, ok := iff.Cond.(*ssa.UnOp); ok && u.Op == token.ARROW && isChanField(u.X, tDB, "writeMergedC") {
+						if succ == 1 {
+							return []Eff{{Res: "wlock", D: +1}}
+						}
+						return []Eff{{Res: "ack", D: +1}} // merged: the result must be collected from writeAckC
 					}
 					// true edge of `db.compWriteLocking`: the handler reclaims the token it was given
 					if isFieldLoad(iff.Cond, tDB, "compWriteLocking") && succ == 0 {
-						return []Eff{{Res: "wlock", D: +1}}
+						return []Eff{{Res: "wlock", D: +1}, {Res: "handler", D: 0, Set: true}}
 					}
 				}
 			}
 			return nil
+		},
+		EdgeSt: func(b *ssa.BasicBlock, succ int, st *tsState) ([]Eff, bool) {
+			// the false edge of `db.compWriteLocking` is infeasible on a path that set the flag
+			if cond, neg, ok := ifCond(b); ok && isFieldLoad(cond, tDB, "compWriteLocking") {
+				falseEdge := 1
+				if neg {
+					falseEdge = 0
+				}
+				if succ == falseEdge && st.cnt["handler"] > 0 {
+					return nil, false
+				}
+			}
+			return nil, true
+		},
+		InstrSt: func(in ssa.Instruction, st *tsState) ([]Eff, bool) {
+			if isCallTo(in, "(*leveldb.DB).unlockWrite") {
+				if _, isDefer := in.(*ssa.Defer); isDefer {
+					return nil, false
+				}
+				cc := callCommon(in)
+				if len(cc.Args) >= 2 {
+					if bv, ok := st.BoolOf(cc.Args[1]); ok {
+						if bv {
+							return []Eff{{Res: "req", D: -1}}, true // the hand-off answers the overflowed request
+						}
+						return nil, true
+					}
+					return []Eff{{Res: "req", D: -1, Sat: true}}, true
+				}
+			}
+			return nil, false
 		},
 		Cond: func(in ssa.Instruction) (*CondEff, bool) {
 			switch {
@@ -287,6 +336,29 @@ func ruleTokenContracts(p *Prog, r *Report, rule string, floor int) {
 				allowed = c.exitOK
 				cls = "success"
 			}
+			if h := e.State.cnt["handler"]; h != 0 && name != "(*leveldb.DB).SetReadOnly" {
+				k := fmt.Sprintf("%s/handler", p.Pos(ret.Pos()))
+				if !seen[k] {
+					seen[k] = true
+					r.Fail(name, "exit-owning-handler-token", "the persistent-error handler gives the token it holds (compWriteLocking) back before it exits", fmt.Sprintf("return at %s is reached while compWriteLocking is set and the token was not received back: Close blocks forever on its terminal acquire", p.Pos(ret.Pos())), p.Pos(ret.Pos()), nil)
+					bad = true
+				}
+			}
+			for _, other := range []string{"req", "ack", "wait"} {
+				if c := e.State.cnt[other]; c != 0 {
+					k := fmt.Sprintf("%s/%s/%d", p.Pos(ret.Pos()), other, c)
+					if !seen[k] {
+						seen[k] = true
+						desc := map[string]string{
+							"req":  "a received merge request is answered exactly once (writeMergedC<-true, or the hand-off by unlockWrite(overflow=true))",
+							"ack":  "a merged writer collects the group's result from writeAckC",
+							"wait": "a writer that sent a merge request waits for the reply on writeMergedC",
+						}[other]
+						r.Fail(name, fmt.Sprintf("exit-%s=%d", other, c), desc, fmt.Sprintf("return at %s reached with %s=%d", p.Pos(ret.Pos()), other, c), p.Pos(ret.Pos()), nil)
+						bad = true
+					}
+				}
+			}
 			if !inInts(n, allowed) {
 				k := fmt.Sprintf("%s/%d/%s", p.Pos(ret.Pos()), n, cls)
 				if seen[k] {
@@ -308,8 +380,8 @@ func ruleTokenContracts(p *Prog, r *Report, rule string, floor int) {
 				continue
 			}
 			seen[k] = true
-			r.Fail(name, "release-unheld", "the token is released / handed off only by its holder",
-				fmt.Sprintf("release or hand-off at %s on a path where the token is not held", p.Pos(u.In.Pos())), p.Pos(u.In.Pos()), nil)
+			r.Fail(name, "release-unheld:"+u.Res, "the token is released / handed off only by its holder; a merge reply is sent only for a received request",
+				fmt.Sprintf("%s: release/hand-off/reply at %s on a path where it is not owed or held", u.Res, p.Pos(u.In.Pos())), p.Pos(u.In.Pos()), nil)
 			bad = true
 		}
 		if res.Truncated {
